@@ -485,6 +485,7 @@ const StickyRule = " BALHIST STICKY FAMILY (harness/balhist/sticky.go): historie
 func runSticky(r *vkit.Run, n int, scratch string) {
 	t0 := timeNow() // reporting only (balhist_sticky_wall_s); no verdict depends on it
 	defer func() { r.Extra("balhist_sticky_wall_s", timeNow().Sub(t0).Seconds()) }()
+	r.Extra("rule_balhist_sticky", StickyRule) // C09's own rule text is set in cmd/vbal; the family describes itself here
 	vkit.Parallel(n, 0, func(i int) {
 		g := r.Rng("balhist-sticky", i)
 		h := stickyGenHistory(g, i)
